@@ -49,6 +49,22 @@ def oracle(ctx, stream, case_lines, rep):
     return None
 
 
+def timer_oracle(ctx, stream, case_lines, rep):
+    """Stream `timer`: two observations are verdicts about the real delayed queue by themselves and need no
+    reproduction (they are rare schedule events): a rotation task that never ran within 60 s, and the queue
+    stress reporting tasks that never ran.  Everything else goes to the generic property oracle."""
+    impl = (rep or {}).get("implementation", "")
+    if impl == "timeout":
+        return ("timer:rotation-never-fired",
+                "a scheduled certificate rotation was never run by the real delayed queue (pkg/queue/delay.go)",
+                {"stream": stream, "ops": case_lines, "observed": impl, "correspondence": rep})
+    if impl.startswith("lost=") and impl != "lost=0":
+        return ("timer:queue-task-stranded",
+                "the real delayed queue (DelayQueueBuffer(0), as the node agent uses it) left pushed tasks on the heap: " + impl,
+                {"stream": stream, "ops": case_lines, "observed": impl, "correspondence": rep})
+    return oracle(ctx, stream, case_lines, rep)
+
+
 def rotate_stream(ctx, ncases):
     """T-diff for rotateTime. The real function draws its jitter from math/rand and reads the clock, so its
     result is an observation, not a reproducible value: exec prints `obs (d w0 w1)*`, the observations are
@@ -192,8 +208,9 @@ def run(ctx):
     rotate_stream(ctx, ctx.n(10000, 200000))
     ctx.diff_stream("cache", ctx.n(2500, 40000), oracle=oracle)
     ctx.diff_stream("conc", ctx.n(150, 2500), oracle=oracle)
-    ctx.diff_stream("timer", ctx.n(8, 300), oracle=oracle)
-    oracle_all(ctx, ["rotate", "cache", "conc", "timer"])
+    ctx.diff_stream("citadel", ctx.n(300, 6000), oracle=oracle)
+    ctx.diff_stream("timer", ctx.n(8, 300), oracle=timer_oracle)
+    oracle_all(ctx, ["rotate", "cache", "conc", "citadel", "timer"])
 
 
 def replay(ctx, path):
